@@ -6,15 +6,23 @@
 (* other).  Every public call takes effect atomically at one instant       *)
 (* (Lin) between its invocation (Call) and its return (Ret):               *)
 (*   send(m)        appends a copy of m to its lane                        *)
-(*   poll()         pops the head of a non-empty lane, or answers None     *)
-(*                  when all lanes are empty                               *)
+(*   poll()         pops the head of a non-empty lane, or answers None.    *)
+(*                  None is always allowed: the property fixes exactly-    *)
+(*                  once delivery, per-sender order and that no call       *)
+(*                  raises; it does not promise that a non-blocking call   *)
+(*                  sees a message that is still on its way through the    *)
+(*                  device (WeakPoll).  With WeakPoll = FALSE the stronger *)
+(*                  atomic-queue reading (None only when empty) is checked *)
+(*                  and reported as an observation, not as a violation.    *)
 (*   receive()      pops the head of a non-empty lane; waits otherwise     *)
-(*   iter_pending() a sequence of atomic pops ending when it observes all  *)
-(*                  lanes empty                                            *)
+(*   iter_pending() a sequence of atomic pops ending like a poll() that    *)
+(*                  answers None                                           *)
 (* No call raises.  Results are tagged records [k, v] (k in ok / none /    *)
 (* msg / list).                                                            *)
 (***************************************************************************)
 EXTENDS Integers, Sequences, FiniteSets, TLC
+
+CONSTANT WeakPoll
 
 VARIABLES lanes,   \* lane -> sequence of message ids
           pend     \* thread -> pending call record
@@ -46,7 +54,7 @@ LinPop(t) ==      \* poll / receive with a message available
 
 LinNone(t) ==     \* a non-blocking call observes the empty port
   /\ pend[t].st = "called" /\ pend[t].op = "poll"
-  /\ AllEmpty /\ UNCHANGED lanes
+  /\ (WeakPoll \/ AllEmpty) /\ UNCHANGED lanes
   /\ Done(t, R("none", <<>>))
 
 LinIterPop(t) ==
@@ -58,7 +66,7 @@ LinIterPop(t) ==
 
 LinIterEnd(t) ==
   /\ pend[t].st = "called" /\ pend[t].op = "iterp"
-  /\ AllEmpty /\ UNCHANGED lanes
+  /\ (WeakPoll \/ AllEmpty) /\ UNCHANGED lanes
   /\ Done(t, R("list", pend[t].acc))
 
 Lin(t) == LinSend(t) \/ LinPop(t) \/ LinNone(t) \/ LinIterPop(t) \/ LinIterEnd(t)
